@@ -94,3 +94,10 @@ def _class_defines_attr(ex, st, obj, attr):
         return VBool(FALSE)          # only DefinedMessage has a __getattr__ fallback
     ex.decls.fun("defines_attr", [INT, STR], BOOL)
     return VBool(app("defines_attr", BOOL, ex.type_of(st, obj.t), ex.decls.str_lit(attr)))
+
+
+@R.specfn("class_attr:name")
+def _class_name_attr(ex, st, obj):
+    """<message>.name: the class' human readable command name (an arbitrary string per class)"""
+    ex.decls.fun("class_display_name", [INT], STR)
+    return VStr(app("class_display_name", STR, ex.type_of(st, obj.t)))
